@@ -31,6 +31,18 @@ BUILTIN_CHARS = {
     'alpha1': ('Chars1', 'alpha'), 'digit0': ('Chars0', 'digit'), 'digit1': ('Chars1', 'digit'),
     'hex_digit1': ('Chars1', 'hex'),
 }
+# closures accepted as second argument of `verify`: text -> (path of the left operand, path of the
+# right operand in the parse tree of the first argument, (regex on the translated first argument,
+# {production: regex on its translated body})) -- the shapes make sure the paths mean what the
+# closure says (s.name is the first component under Element::from; e is the end tag's qname)
+VERIFY_CLOSURES = {
+    '| ( s , _ , e ) | s . name == * e':
+        ('[Fst;InMap;Fst]', '[Snd;Snd]',
+         (r'^\(Seq \(NT nt_stag\) \(Seq \(NT nt_content\) \(NT nt_etag\)\)\)$',
+          {'stag': r'^\(Map L_model_Element_from \(SeqR \(Tag \[60\]\) \(SeqL \(Seq \(NT nt_qname\) ',
+           'etag': r'^\(SeqR \(Tag \[60;47\]\) \(SeqL \(NT nt_qname\) '})),
+}
+
 CLASSES = {
     'ws': '(InR [(32,32);(9,9);(13,13);(10,10)])',
     'alpha': '(InR [(65,90);(97,122)])',
@@ -204,6 +216,7 @@ class Grammar:
             raise TError('%s: duplicate production names %s' % (gname, sorted(dup)))
         self.index = {n: i for i, n in enumerate(names)}
         self.labels = {}         # text -> (ident, number)
+        self.verify_shapes = []  # (where, {production: regex its translated body must match})
         self.slice_valued = {}
     def nested(self, name, header, body, toks):
         return name == 'run'     # helper nested in the verification hook
@@ -252,6 +265,19 @@ class Grammar:
                     if len(args) != 1: fail('%s needs one argument' % name)
                     con = {'opt': 'Opt', 'recognize': 'Recognize', 'many0': 'Many0', 'many1': 'Many1'}[name]
                     return '(%s %s)' % (con, self.tr(args[0], where))
+                if name == 'verify':
+                    # verify(P, |..| a == b): only closures listed in VERIFY_CLOSURES, which name the
+                    # two compared components by their position in P's parse tree
+                    if len(args) != 2 or args[1][0] != 'closure': fail('verify needs (parser, closure)')
+                    text = ' '.join(t.text for t in args[1][1])
+                    if text not in VERIFY_CLOSURES:
+                        fail('verify closure outside the fragment: %s' % text)
+                    p1, p2, shape = VERIFY_CLOSURES[text]
+                    inner = self.tr(args[0], where)
+                    if not re.match(shape[0], inner):
+                        fail('verify: parser argument has not the expected shape for this closure: %s' % inner)
+                    self.verify_shapes.append((where, shape[1]))
+                    return '(VerifyEq %s %s %s)' % (p1, p2, inner)
                 if name == 'delimited':
                     if len(args) != 3: fail('delimited needs three arguments')
                     a, b, c = [self.tr(x, where) for x in args]
@@ -359,6 +385,10 @@ class Grammar:
                 bodies.append(self.tr(e[1], where))
             else:
                 raise TError('%s: body is not of the form COMBINATOR(input)' % where)
+        for where, shapes in self.verify_shapes:
+            for prod, rx in shapes.items():
+                if prod not in self.index or not re.match(rx, bodies[self.index[prod]]):
+                    raise TError('%s: verify closure relies on the shape of production %s, which changed' % (where, prod))
         return bodies
 
 # ---------------------------------------------------------------- certificate (untrusted; Coq checks it)
@@ -405,6 +435,7 @@ def certificate(names, bodies, xc):
         if h == 'Recognize': return enull(t[1])
         if h == 'Map': return enull(t[2])
         if h == 'TakeExcept': return enull(t[1])
+        if h == 'VerifyEq': return enull(t[3])
         if h == 'NT': return nullb[idx[t[1]]]
         raise TError('certificate: constructor %s' % h)
     def efirst(t):
@@ -415,6 +446,7 @@ def certificate(names, bodies, xc):
         if h == 'Alt': return efirst(t[1]) + efirst(t[2])
         if h in ('Many0', 'Many1', 'Opt', 'Recognize', 'TakeUntil', 'TakeExcept'): return efirst(t[1])
         if h == 'Map': return efirst(t[2])
+        if h == 'VerifyEq': return efirst(t[3])
         if h in ('SepBy0', 'SepBy1'): return efirst(t[2]) + (efirst(t[1]) if enull(t[2]) else [])
         if h == 'NT': return [idx[t[1]]]
         raise TError('certificate: constructor %s' % h)
@@ -510,6 +542,8 @@ def emit(gname, g, bodies, xc, srcs):
                 kind, pred, _ = xc[t[3:]]
                 return [kind, members(pred)]
             if t.startswith('['):
+                if re.match(r'^\[[A-Za-z;]*\]$', t) and t != '[]':
+                    return t          # a list of directions (VerifyEq paths)
                 return [int(x) for x in t[1:-1].split(';')] if t != '[]' else []
             return t
         h = t[0]
